@@ -199,13 +199,7 @@ class NutsOracle:
         return None
 
     def _start_gen(self):
-        rec = self.sim.recording[self.mark:]
-        sn = [d for d in rec if d[0] == "standard_normal"]
-        ex = [d for d in rec if d[0] == "exponential"]
-        if not sn or not ex:
-            raise core.Undecided("momentum / slice draws not found before the first uniform")
-        r0 = as_vec(sn[-1][1])
-        e = float(np.ravel(ex[-1][1])[0])
+        r0, e = self._momentum_and_slice_quiet()
         self.ref = RefNUTS(self.refs["ref_logd"], self.refs["ref_grad"], self.leaf_source, legacy=(self.iface == "legacy"))
         self.ref.eps_hint = getattr(self, "eps_hint", None)
         self.gen = self.ref.step(self.x0, r0, e, self.eps, self.maxd)
@@ -277,16 +271,54 @@ class NutsOracle:
         except core.Undecided as e:
             self.protocol_broken = "undecided:" + str(e)
 
-    def offline(self, eps):
-        """Verification run: a fresh reference fed the step size the transition really used and the uniforms that
-        were really served, in order."""
+    def _momentum_and_slice(self):
+        """momentum draw r0 and the slice level as e = H0 - log u >= 0.  Two protocols are recognised for the slice
+        variable: log u = H0 - Exp(1)  and the textbook  u ~ U(0, exp(H0)).  A slice level that is not finite (u = 0
+        because exp(H0) underflowed) is a violation: every state would then count as inside the slice."""
+        rec = self.sim.recording[self.mark:]
+        sn = [d for d in rec if d[0] == "standard_normal"]
+        if not sn:
+            raise core.Undecided("momentum draw not found")
+        r0 = as_vec(sn[0][1])
+        ex = [d for d in rec if d[0] == "exponential"]
+        if ex:
+            return r0, float(np.ravel(ex[0][1])[0])
+        un = [d for d in rec if d[0] == "uniform" and np.size(d[1]) == 1]
+        if un:
+            H0 = self.refs["ref_logd"](self.x0) - 0.5 * float(r0 @ r0)
+            v = float(np.ravel(un[0][1])[0])
+            hi = un[0][2][1] if len(un[0][2]) > 1 else un[0][3].get("high")
+            if not close(float(np.ravel(hi)[0]), math.exp(H0) if H0 > -745 else 0.0, 1e-9):
+                raise core.Undecided("uniform draw is not U(0, exp(H0))")
+            if not v > 0.0:
+                self.ctx.violate(PROP, "slice_variable_degenerate", self.sig(history=self.history), H0=H0, u=v)
+                raise core.Undecided("degenerate slice variable (reported)")
+            return r0, H0 - math.log(v)
+        raise core.Undecided("slice draw not found")
+
+    def _momentum_and_slice_quiet(self):
+        """for the online placement helper: same recognition, but never reports"""
         rec = self.sim.recording[self.mark:]
         sn = [d for d in rec if d[0] == "standard_normal"]
         ex = [d for d in rec if d[0] == "exponential"]
-        if not sn or not ex:
-            raise core.Undecided("momentum / slice draws not found")
+        if not sn:
+            raise core.Undecided("momentum draw not found before the first uniform")
+        r0 = as_vec(sn[-1][1])
+        if ex:
+            return r0, float(np.ravel(ex[-1][1])[0])
+        un = [d for d in rec if d[0] == "uniform" and np.size(d[1]) == 1]
+        if un:
+            v = float(np.ravel(un[-1][1])[0])
+            H0 = self.refs["ref_logd"](self.x0) - 0.5 * float(r0 @ r0)
+            return r0, (H0 - math.log(v)) if v > 0 else float("inf")
+        raise core.Undecided("slice draw not found before the first uniform")
+
+    def offline(self, eps):
+        """Verification run: a fresh reference fed the step size the transition really used and the uniforms that
+        were really served, in order."""
+        r0, e_draw = self._momentum_and_slice()
         ref = RefNUTS(self.refs["ref_logd"], self.refs["ref_grad"], self.leaf_source, legacy=(self.iface == "legacy"))
-        gen = ref.step(self.x0, as_vec(sn[0][1]), float(np.ravel(ex[0][1])[0]), eps, self.maxd)
+        gen = ref.step(self.x0, r0, e_draw, eps, self.maxd)
         us = list(self.served)
         protocol = None
         result = None
@@ -534,7 +566,7 @@ class NutsRun:
 
         def policy(name, a, k, v):
             # activate at the slice draw of the first transition (after _FindGoodEpsilon's own draws)
-            if name == "exponential" and not started["v"]:
+            if (name == "exponential" or (name == "uniform" and np.size(v) == 1)) and not started["v"]:
                 started["v"] = True
                 rec = self.sim.recording
                 # the momentum draw of this transition is the last standard_normal recorded
@@ -584,6 +616,11 @@ def gen_case(r, tier):
         sc["knobs"] = {"max_depth": maxd, "adapt_step_size": adapt, "x0": ip}
         Nb = r.randint(1, 10) if adapt is True else r.choice([0, 0, 3])
         ops = [{"op": "sample", "N": r.randint(2, 14), "Nb": Nb}]
+    if r.random() < 0.1:
+        # start far in the tail: log-density of order -1e3 ... -1e6 (exp() of the Hamiltonian underflows)
+        far = [round(v * r.choice([40.0, 80.0]), 2) for v in ip]
+        far = [f if abs(f) > 20 else 45.0 for f in far]
+        sc["knobs"]["initial_point" if iface == "exp" else "x0"] = far
     sc["fault_rate"] = r.choice([0.0, 0.0, 0.03, 0.1])
     sc["fault_kinds"] = r.choice([["nan"], ["-inf"], ["nan", "-inf"], ["nan", "-inf", "inf"]])
     return {"scenario": sc, "ops": ops}
